@@ -284,22 +284,10 @@ func Resplit(c *Case, r *rand.Rand, max int) []*Case {
 		}
 		return &nc
 	}
+	// one-shot first; then the byte-by-byte and random multi-split plans; the
+	// single split points fill what is left of max (all of them when they fit,
+	// an even seeded sample otherwise)
 	out := []*Case{build(nil, nil)}
-	add := func(s, g []int) {
-		if len(out) < max {
-			out = append(out, build(s, g))
-		}
-	}
-	if hasSrc {
-		for k := 0; k <= len(data); k++ { // k == 0 and k == len: an empty piece first / a late `closed`
-			add([]int{k}, nil)
-		}
-	}
-	if hasDst {
-		for k := 0; k <= grow; k++ {
-			add(nil, []int{k})
-		}
-	}
 	var all, allg []int
 	for k := 1; k < len(data); k++ {
 		all = append(all, k)
@@ -308,18 +296,34 @@ func Resplit(c *Case, r *rand.Rand, max int) []*Case {
 		allg = append(allg, k)
 	}
 	if hasSrc && hasDst {
-		add(all, allg)
-		add(all, nil)
-		add(nil, allg)
+		out = append(out, build(all, allg), build(all, nil), build(nil, allg))
 	} else if hasSrc {
-		add(all, nil)
+		out = append(out, build(all, nil))
 	} else {
-		add(nil, allg)
+		out = append(out, build(nil, allg))
 	}
-	for i := 0; i < 6; i++ {
-		add(randCuts(r, len(data)), randCuts(r, grow))
+	for i := 0; i < 5; i++ {
+		out = append(out, build(randCuts(r, len(data)), randCuts(r, grow)))
 	}
-	return out
+	var singles []*Case
+	if hasSrc {
+		for k := 0; k <= len(data); k++ { // k == 0 and k == len: an empty piece first / a late `closed`
+			singles = append(singles, build([]int{k}, nil))
+		}
+	}
+	if hasDst {
+		for k := 0; k <= grow; k++ {
+			singles = append(singles, build(nil, []int{k}))
+		}
+	}
+	if room := max - len(out); room < len(singles) {
+		r.Shuffle(len(singles), func(a, b int) { singles[a], singles[b] = singles[b], singles[a] })
+		if room < 0 {
+			room = 0
+		}
+		singles = singles[:room]
+	}
+	return append(out, singles...)
 }
 
 func randCuts(r *rand.Rand, n int) []int {
